@@ -74,6 +74,9 @@ def describe(line):
         e = json.loads(line)
     except Exception:
         return "?"
+    if e.get("op") == "Big":
+        return "long byte string (len %s, string=%s): psize=%s n=%s nw=%s consumed=%s rt=%s shortfails=%s shift=%s" % tuple(
+            e.get(k) for k in ("len", "string", "psize", "n", "nw", "consumed", "rt", "shortfails", "shift"))
     op = {"W": "write", "R": "read from stream", "M": "Marshal", "D": "Unmarshal"}.get(e.get("op"), e.get("op"))
     extra = ""
     if e.get("panic"):
